@@ -71,7 +71,11 @@ func interleaveCheck(c *core.Case, e *entry, v, w any) {
 		violate(c, "codec:I:"+typ+":TokenReader:depends-on-other-readers", "%s: a reader does not yield what it yields when it is built and consumed alone\nalone:       %s\ninterleaved: %s", mode, qb(want), qb(got))
 	}
 	// (built v,w / consumed v,w is what MultiReader does below; the case's two values are exchangeable, so one crossed order suffices)
-	for _, order := range []string{"built v,w consumed w,v"} {
+	orders := []string{"built v,w consumed w,v"}
+	if c.Index%4 != 0 {
+		orders = nil // three cases in four only go through MultiReader below
+	}
+	for _, order := range orders {
 		var gotV, gotW []byte
 		var e1, e2 error
 		if guard(c, typ, "TokenReader ("+order+")", func() {
